@@ -1,5 +1,64 @@
-import TexelVerif.BookBuild.Link
+import TexelVerif.BookBuild.Witness
+/-!
+# C19 — book-builder graph scores stay at their defined fixed point
+
+Property theorems only; the model is `TexelVerif/BookBuild/{Basic,Update,Link}.lean`, the proofs are in
+`BookBuild/{Propagate,Invariant,Preserve,UpdateSpec,Ops,Witness}.lean`.
+
+`fixed := true` is the algorithm of the tree *after* the commit `fix: BookNode::updateScores also queues the changed
+node itself for the path-error pass`; `fixed := false` is the algorithm as found.  The line-protocol driver
+(`Drv/BookBuild.lean`) runs `fixed := true`; the differential of `./check C19` ties it to the C++.
+-/
 namespace Props.C19
 open Bk
-theorem placeholder : negateScore 5 = -5 := by decide
+
+/-- `BookNode::setSearchResult` (any best move, any score incl. mate / INVALID / IGNORE) keeps the book at its fixed point. -/
+theorem setSearchResult_preserves_fixedpoint (b : Book) (i mv : Nat) (score : Int) (time : Nat)
+    (h : FixedPoint b) (hi : i < b.size) : FixedPoint (setSearchResult true b i mv score time) :=
+  setSearchResult_preserves b i mv score time h hi
+
+/-- `Book::addPending` keeps the book at its fixed point. -/
+theorem addPending_preserves_fixedpoint (b : Book) (i : Nat) (h : FixedPoint b) (hi : i < b.size) :
+    FixedPoint (addPending true b i) :=
+  addPending_preserves b i h hi
+
+/-- `Book::removePending` keeps the book at its fixed point. -/
+theorem removePending_preserves_fixedpoint (b : Book) (i : Nat) (h : FixedPoint b) (hi : i < b.size) :
+    FixedPoint (removePending true b i) :=
+  removePending_preserves b i h hi
+
+/-- An explicit `node->updateScores(bookData)` keeps the book at its fixed point. -/
+theorem updateScores_preserves_fixedpoint (b : Book) (i : Nat) (h : FixedPoint b) (hi : i < b.size) :
+    FixedPoint (updateScores true b i) :=
+  updateScores_preserves b i h hi
+
+/-- The core of all of the above: on a structurally sound book where only `start` and its parents may violate the
+    negamax / expansion-cost equations and only `start` may violate the path-error equations, the repaired
+    `updateScores` re-establishes every equation and writes nothing but the five derived score fields. -/
+theorem updateScores_reaches_fixedpoint (b : Book) (start : Nat) (hS : StructOk b) (hs : start < b.size)
+    (hnm : ∀ j, j < b.size → j ≠ start → j ∉ parentIds (b.nd start) → nmOk b j)
+    (hpe : ∀ j, j < b.size → j ≠ start → peOk b j) :
+    FixedPoint (updateScores true b start) ∧ SameBase (updateScores true b start) b := by
+  refine ⟨updateScores_fixedPoint b start hS hs hnm hpe, ?_⟩
+  obtain ⟨r, hr⟩ := hS.acyclic
+  exact (updateScores_spec b start r hS.wf hr hs hnm hpe).1
+
+/-- The algorithm as found leaves the book off its fixed point: after the 4-node history of `witnessRun`
+    node A's path error violates its defining equation. -/
+theorem fixedpoint_broken_witness : ¬ FixedPoint (witnessRun false) :=
+  fun h => absurd (h.pathErr 1 (by decide)) (by decide)
+
+/-- The same history with the repaired algorithm satisfies every score equation. -/
+theorem fixedpoint_ok_witness_fixed : ∀ i, i < (witnessRun true).size → nmOk (witnessRun true) i ∧ peOk (witnessRun true) i :=
+  (scoresOkB_iff _).mp (by decide)
+
+/-- The values of the witness, as printed by the real library before / after the repair. -/
+theorem witness_values :
+    ((witnessRun false).nd 1).nm = 30 ∧ ((witnessRun false).nd 1).peW = 40 ∧ ((witnessRun false).pathErrOf 1).1 = 80 ∧
+    ((witnessRun true).nd 1).nm = 30 ∧ ((witnessRun true).nd 1).peW = 80 := by decide
+
+-- non-vacuity: the hypotheses are satisfiable
+example (k : Nat) (c : Costs) : FixedPoint (Book.new k c) := fixedPoint_new k c
+example : (0 : Nat) < (Book.new 7 {}).size := by decide
+
 end Props.C19
